@@ -177,6 +177,20 @@ func writesAbove(g, f fetch) bool {
 }
 
 func genPaths(r *common.Rand, odd bool) []fetch {
+	if !odd && r.Chance(1, 8) {
+		// the merge-group plans of the DAG stream (overlapping dependency lists: shared prefix, own tail,
+		// repeated entries) on the real pipeline: roots merge at a field of their own, every other fetch is
+		// nested at a position of its own and declares its dependencies (nothing left to the completion stage)
+		dag := genMergeGroups(r)
+		for i := range dag {
+			if len(dag[i].deps) == 0 {
+				dag[i].mp = []string{"p" + strconv.Itoa(dag[i].id)}
+			} else {
+				dag[i].rp = []string{"n" + strconv.Itoa(dag[i].id)}
+			}
+		}
+		return dag
+	}
 	for {
 		dag := genPathsOnce(r, odd)
 		if terminates(completedForFilter(dag)) {
